@@ -30,7 +30,7 @@ def tok(cls):
 
 def as_items(eng, ctx, v):
     """items of a str-like value (loads through pointers; literals are expanded)"""
-    if isinstance(v, Ptr):
+    while isinstance(v, Ptr):
         v = eng.load_ptr(ctx, v)
     if isinstance(v, Native) and v.kind == "sstr":
         return v.data
